@@ -217,5 +217,7 @@ EmitSplit == (IsSplit /\ EmitMod > 0 /\ Hash % EmitMod = 0) =>
 \* the witnesses of C09 that the harness replays under different hash seeds
 EmitSchedSensitive == (Done /\ lay # Layout(mi, CanonSched(mi))) =>
    PrintT(ToJson([blocks |-> BlocksJson(ModelOf(deps, layout).blocks), sched |-> sched,
+                  \* the dependency sets whose iteration order differs from the canonical one in this schedule
+                  flipped |-> {deps[n] : n \in {m \in DOMAIN sched : sched[m] # SortByName(deps[m])}},
                   state_order |-> lay.state, canonical_state_order |-> Layout(mi, CanonSched(mi)).state]))
 =============================================================================
